@@ -8,6 +8,7 @@ import CBV.Lemmas.C18
 import CBV.Lemmas.C18Hex
 import CBV.Lemmas.C18Model
 import CBV.Lemmas.C18Data
+import CBV.Lemmas.C18Clear
 
 namespace CBV.C18
 
@@ -614,6 +615,235 @@ example : Canonical ⟨1 / 2, -10, 1 / 2⟩ ⟨1 / 2, 1 / 2, 10⟩ unitCube :=
 
 /-- … and a rotated numbering of it is not (so `T_C18_unique` is not vacuous on the other side either) -/
 example : ¬ frontOk ⟨1 / 2, -10, 1 / 2⟩ ⟨1 / 2, 1 / 2, 10⟩ (relabel unitCube (perm [1, 2, 3, 0, 5, 6, 7, 4])) = true := by
+  decide +kernel
+
+/-! ### round 6: the re-orienter in a clear view, by proof
+
+`reorient` is followed through every step (hull triangles → orientation → six passes of `_get_aligned` +
+`Quadrangle` → eight triple intersections → each-point-once check → handedness swap) for every block, every
+triangulation of its six sides handed over by the hull oracle in any order, every input numbering and every view in
+which each pass has a clear winner. -/
+
+theorem average_toList (Q : Hex) : average Q.toList = Q.center := by
+  rw [center_eq_sumV]
+  simp [average, Hex.toList]
+
+theorem toList_ofList {ql : List V3} (h : ql.length = 8) : (Hex.ofList ql).toList = ql := by
+  match ql, h with
+  | [p0, p1, p2, p3, p4, p5, p6, p7], _ => rfl
+
+theorem sep_of_sepOk {Q : Hex} (h : sepOk Q = true) : Sep Q := by
+  simp only [sepOk, List.all_eq_true, List.mem_range, Bool.or_eq_true, beq_iff_eq, Bool.not_eq_true',
+    decide_eq_false_iff_not] at h
+  intro i j hi hj hn
+  rcases h i hi j hj with h | h
+  · exact h
+  · exact absurd hn h
+
+/-- **Clear view ⇒ the numbering `Q`.**  `Q` is any numbering of the block whose corners are pairwise distinct to the
+    merge tolerance; `pts` is the input in ANY order; the oriented hull triangles are — in ANY order, each with its
+    vertices in any order, with EITHER diagonal per side (`sidesCut`) — the two halves of the front, back, top, bottom,
+    left and right side of `Q`; in every pass the two halves of that side are strictly better aligned than every
+    triangle still left and they are at most 60° apart (`ClearView`).  Then `reorient` does not raise and writes back
+    `Q` (left and right exchanged if `Q` is left-handed).  The hull is the oracle; its contract is `htris` + `hcut`. -/
+theorem T_C18_clear_view (Q : Hex) (hs : Sep Q) (pts : List V3) (hp : pts.Perm Q.toList)
+    (sim : List ITri) (obs ceil : V3) (f1 f2 b1 b2 t1 t2 o1 o2 l1 l2 r1 r2 : ITri)
+    (hcut : sidesCut f1 f2 b1 b2 t1 t2 o1 o2 l1 l2 r1 r2 = true)
+    (htris : (orientedTris pts sim).Perm ([f1, f2, b1, b2, t1, t2, o1, o2, l1, l2, r1, r2].map (triP Q)))
+    (hview : ¬ ((dirsOf Q.center obs ceil).o = V3.zero ∨ (dirsOf Q.center obs ceil).t = V3.zero))
+    (hv : ClearView (dirsOf Q.center obs ceil) (triP Q f1) (triP Q f2) (triP Q b1) (triP Q b2) (triP Q t1) (triP Q t2) (triP Q o1) (triP Q o2) (triP Q l1) (triP Q l2) (triP Q r1) (triP Q r2)) :
+    reorient pts sim obs ceil = .ok (fixHand Q.toList) := by
+  have hlen : sim.length = 12 := by
+    have := htris.length_eq
+    simpa [orientedTris] using this
+  have hc : average pts = Q.center := (average_perm hp).trans (average_toList Q)
+  have := reorientCore_clear (c := average pts) hs hp hcut htris (hc ▸ hview) (hc ▸ hv)
+  unfold reorient makeTriangles
+  rw [if_neg (by omega)]
+  exact this
+
+/-- **Canonicalisation.**  Two inputs — the same block numbered differently (`pts`, `pts'` in any order), with hulls
+    that cut the sides along different diagonals and list the triangles in different orders — are written back
+    point for point the same, provided the view is clear for both hulls. -/
+theorem T_C18_canonicalises (Q : Hex) (hs : Sep Q) (pts pts' : List V3) (hp : pts.Perm Q.toList)
+    (hp' : pts'.Perm Q.toList) (sim sim' : List ITri) (obs ceil : V3) (f1 f2 b1 b2 t1 t2 o1 o2 l1 l2 r1 r2 : ITri) (f1' f2' b1' b2' t1' t2' o1' o2' l1' l2' r1' r2' : ITri)
+    (hcut : sidesCut f1 f2 b1 b2 t1 t2 o1 o2 l1 l2 r1 r2 = true) (hcut' : sidesCut f1' f2' b1' b2' t1' t2' o1' o2' l1' l2' r1' r2' = true)
+    (htris : (orientedTris pts sim).Perm ([f1, f2, b1, b2, t1, t2, o1, o2, l1, l2, r1, r2].map (triP Q)))
+    (htris' : (orientedTris pts' sim').Perm ([f1', f2', b1', b2', t1', t2', o1', o2', l1', l2', r1', r2'].map (triP Q)))
+    (hview : ¬ ((dirsOf Q.center obs ceil).o = V3.zero ∨ (dirsOf Q.center obs ceil).t = V3.zero))
+    (hv : ClearView (dirsOf Q.center obs ceil) (triP Q f1) (triP Q f2) (triP Q b1) (triP Q b2) (triP Q t1) (triP Q t2) (triP Q o1) (triP Q o2) (triP Q l1) (triP Q l2) (triP Q r1) (triP Q r2))
+    (hv' : ClearView (dirsOf Q.center obs ceil) (triP Q f1') (triP Q f2') (triP Q b1') (triP Q b2') (triP Q t1') (triP Q t2') (triP Q o1') (triP Q o2') (triP Q l1') (triP Q l2') (triP Q r1') (triP Q r2')) :
+    reorient pts sim obs ceil = reorient pts' sim' obs ceil := by
+  rw [T_C18_clear_view Q hs pts hp sim obs ceil f1 f2 b1 b2 t1 t2 o1 o2 l1 l2 r1 r2 hcut htris hview hv,
+    T_C18_clear_view Q hs pts' hp' sim' obs ceil f1' f2' b1' b2' t1' t2' o1' o2' l1' l2' r1' r2' hcut' htris' hview hv']
+
+theorem swapLR_toList (Q : Hex) : swapLR Q.toList = (relabel Q (perm [1, 0, 3, 2, 5, 4, 7, 6])).toList := rfl
+
+theorem sym48_swap_closed :
+    ∀ l ∈ sym48, (List.range 8).map (fun i => perm l (perm [1, 0, 3, 2, 5, 4, 7, 6] i)) ∈ sym48 := by decide +kernel
+
+theorem relabel_toList_perm (P : Hex) (l : List Nat) (hl : l ∈ sym48) : P.toList.Perm (relabel P (perm l)).toList := by
+  obtain ⟨h1, h2⟩ := sym48_perm l hl
+  have : (relabel P (perm l)).toList = l.map P := by
+    unfold Hex.toList relabel
+    rw [← h2, List.map_map]
+    rw [h2]
+    rfl
+  rw [this]
+  exact (h1.map P).symm
+
+/-- **One of the 48 relabellings of the input, right-handed.**  The input is a numbered block `P`; the view is clear
+    for one of its 48 relabellings.  Then what is written back is again one of the 48 relabellings of `P` (the corner
+    permutation preserves the sides and edges of the block) … -/
+theorem T_C18_clear_view_relabelling (P : Hex) (l : List Nat) (hl : l ∈ sym48) (hs : Sep (relabel P (perm l)))
+    (sim : List ITri) (obs ceil : V3) (f1 f2 b1 b2 t1 t2 o1 o2 l1 l2 r1 r2 : ITri)
+    (hcut : sidesCut f1 f2 b1 b2 t1 t2 o1 o2 l1 l2 r1 r2 = true)
+    (htris : (orientedTris P.toList sim).Perm ([f1, f2, b1, b2, t1, t2, o1, o2, l1, l2, r1, r2].map (triP (relabel P (perm l)))))
+    (hview : ¬ ((dirsOf (relabel P (perm l)).center obs ceil).o = V3.zero ∨
+      (dirsOf (relabel P (perm l)).center obs ceil).t = V3.zero))
+    (hv : ClearView (dirsOf (relabel P (perm l)).center obs ceil) (triP (relabel P (perm l)) f1) (triP (relabel P (perm l)) f2) (triP (relabel P (perm l)) b1) (triP (relabel P (perm l)) b2) (triP (relabel P (perm l)) t1) (triP (relabel P (perm l)) t2) (triP (relabel P (perm l)) o1) (triP (relabel P (perm l)) o2) (triP (relabel P (perm l)) l1) (triP (relabel P (perm l)) l2) (triP (relabel P (perm l)) r1) (triP (relabel P (perm l)) r2)) :
+    ∃ l' ∈ sym48, reorient P.toList sim obs ceil = .ok (relabel P (perm l')).toList := by
+  rw [T_C18_clear_view _ hs P.toList (relabel_toList_perm P l hl) sim obs ceil f1 f2 b1 b2 t1 t2 o1 o2 l1 l2 r1 r2 hcut htris hview hv]
+  unfold fixHand
+  simp only
+  split
+  · refine ⟨_, sym48_swap_closed l hl, ?_⟩
+    rw [swapLR_toList]
+    rfl
+  · exact ⟨l, hl, rfl⟩
+
+/-- … and right-handed whenever the block's corner triple products have one sign (T_C18_right_handed applied to the
+    numbering of `T_C18_clear_view`) -/
+theorem T_C18_clear_view_right_handed (Q : Hex)
+    (h : (∀ i < 8, 0 < tp Q i) ∨ (∀ i < 8, tp Q i < 0)) :
+    ∀ i < 8, 0 < tp (Hex.ofList (fixHand Q.toList)) i := by
+  have hq : ∀ j < 8, Hex.ofList Q.toList j = Q j := by
+    intro j hj
+    have : j = 0 ∨ j = 1 ∨ j = 2 ∨ j = 3 ∨ j = 4 ∨ j = 5 ∨ j = 6 ∨ j = 7 := by omega
+    rcases this with rfl | rfl | rfl | rfl | rfl | rfl | rfl | rfl <;> rfl
+  apply T_C18_right_handed
+  rcases h with h | h
+  · exact Or.inl (fun i hi => by rw [tp_congr hq i hi]; exact h i hi)
+  · exact Or.inr (fun i hi => by rw [tp_congr hq i hi]; exact h i hi)
+
+/-- the request `c18.clear` is sound: when the decidable check accepts a witness (numbering `ql`, triangles by side),
+    the model's `reorient` returns `fixHand ql` — so on every generated case that is answered `clear` the returned
+    numbering is the one `T_C18_clear_view` names, independent of triangle order, diagonals and input numbering. -/
+theorem T_C18_clear_check (pts : List V3) (sim : List ITri) (obs ceil : V3) (ql : List V3) (ix : List ITri)
+    (h : clearOk pts sim obs ceil ql ix = true) : reorient pts sim obs ceil = .ok (fixHand ql) := by
+  unfold clearOk at h
+  split at h
+  · simp only [Bool.and_eq_true, decide_eq_true_eq, beq_iff_eq, List.isPerm_iff] at h
+    obtain ⟨⟨⟨⟨⟨⟨h8, hp⟩, hsep⟩, hcut⟩, htris⟩, hview⟩, hv⟩ := h
+    have := T_C18_clear_view (Hex.ofList ql) (sep_of_sepOk hsep) pts (by rw [toList_ofList h8]; exact hp) sim obs ceil
+      _ _ _ _ _ _ _ _ _ _ _ _ hcut htris hview hv
+    rw [toList_ofList h8] at this
+    exact this
+  · cases h
+
+/-- non-vacuity: the unit cube seen from the front is a clear view in the sense of the theorems above … -/
+example : clearOk cubePts cubeHull ⟨1 / 2, -10, 1 / 2⟩ ⟨1 / 2, 1 / 2, 10⟩ cubePts
+    (sortBySide ((orientedTris cubePts cubeHull).map (itriOf cubePts))) = true := by decide +kernel
+
+/-- … also with the triangle list reversed and a mirrored input numbering (the witness is found by `clearSearch`) -/
+example : clearSearch (swapLR cubePts) (cubeHull.reverse.map (fun s => (perm [1, 0, 3, 2, 5, 4, 7, 6] s.1,
+    perm [1, 0, 3, 2, 5, 4, 7, 6] s.2.1, perm [1, 0, 3, 2, 5, 4, 7, 6] s.2.2))) ⟨1 / 2, -10, 1 / 2⟩ ⟨1 / 2, 1 / 2, 10⟩
+    = some cubePts := by decide +kernel
+
+
+/-! ### round 6: tie to the source text
+
+`cbv/tables/c18.py` reads the anchored functions of the CURRENT source with `ast` on every run (comparisons, slices, the
+corner recipe, the swap tuple, the handedness sides, the numeric limits) and emits them into `CBV.Gen`; the theorems below
+say that the model's code is what these tables say.  A change of an operator, a constant, an index or the order of the
+recipe in the source breaks one of them. -/
+
+/-- `Except`-valued map in list order (what the list display `[a.f(), b.f(), …]` of the source does) -/
+def mapE {α β : Type} (f : α → Except Err β) : List α → Except Err (List β)
+  | [] => .ok []
+  | a :: as => do
+    let b ← f a
+    let bs ← mapE f as
+    pure (b :: bs)
+
+/-- the eight triple intersections of the model are `quads[a].get_common_point(quads[b], quads[c])` of the source's
+    `sorted_points` list, in its order -/
+theorem T_C18_tie_corner_recipe (q : Quads) :
+    cornersOf q = mapE (fun r => commonPoint (q.get r.1) (q.get r.2.1) (q.get r.2.2)) CBV.Gen.c18CornerRecipe := by
+  simp [cornersOf, mapE, CBV.Gen.c18CornerRecipe, Quads.get, -bind_pure_comp]
+  rfl
+
+/-- the handedness swap uses the source's index tuple, the handedness test the source's three sides -/
+theorem T_C18_tie_swap (out : List V3) : swapLR out = CBV.Gen.c18SwapIdx.map (fun i => out.getD i V3.zero) := rfl
+
+theorem T_C18_tie_hand (out : List V3) :
+    CBV.Gen.c18HandSides = [("side_x", 1, 0), ("side_y", 3, 0), ("side_z", 4, 0)] ∧
+    fixHand out =
+      (let side (k : Nat) := out.getD (CBV.Gen.c18HandSides.getD k ("", 0, 0)).2.1 V3.zero -
+          out.getD (CBV.Gen.c18HandSides.getD k ("", 0, 0)).2.2 V3.zero
+       if det3 (side 0) (side 1) (side 2) < 0 then CBV.Gen.c18SwapIdx.map (fun i => out.getD i V3.zero) else out) :=
+  ⟨by decide, rfl⟩
+
+/-- `_make_triangles` rejects exactly the hulls whose number of simplices is not the source's constant -/
+theorem T_C18_tie_hull_count (pts : List V3) (sim : List (Nat × Nat × Nat)) :
+    CBV.Gen.c18HullCount.1 = "NotEq" ∧
+    (makeTriangles pts sim = .error .notConvex ↔ sim.length ≠ CBV.Gen.c18HullCount.2) := by
+  refine ⟨by decide, ?_⟩
+  unfold makeTriangles
+  have : CBV.Gen.c18HullCount.2 = 12 := rfl
+  rw [this]
+  split <;> simp [*]
+
+/-- the 60° limit of `Quadrangle.__init__`: `dot(n0, n1)/(|n0||n1|) < num/den` with the source's constant, by squares -/
+theorem T_C18_tie_steep (t0 t1 : Tri) :
+    CBV.Gen.c18SteepLimit.1 = "Lt" ∧
+    (tooSteep t0 t1 ↔ V3.dot t0.normalRaw t1.normalRaw < 0 ∨
+      ((CBV.Gen.c18SteepLimit.2.2 : Rat) * CBV.Gen.c18SteepLimit.2.2) *
+          (V3.dot t0.normalRaw t1.normalRaw * V3.dot t0.normalRaw t1.normalRaw) <
+        ((CBV.Gen.c18SteepLimit.2.1 : Rat) * CBV.Gen.c18SteepLimit.2.1) *
+          (V3.norm2 t0.normalRaw * V3.norm2 t1.normalRaw)) := by
+  refine ⟨by decide, ?_⟩
+  have h1 : CBV.Gen.c18SteepLimit.2.1 = 1 := rfl
+  have h2 : CBV.Gen.c18SteepLimit.2.2 = 2 := rfl
+  rw [h1, h2]
+  unfold tooSteep
+  norm_num
+
+/-- `find_shell` takes `face.points[lower:upper]` with the source's bounds -/
+theorem T_C18_tie_shell_slice (s : Sketch) :
+    s.shellOuterPts = s.shell.flatMap (fun f =>
+      ((s.quads.getD f []).drop CBV.Gen.c18ShellSlice.1).take (CBV.Gen.c18ShellSlice.2 - CBV.Gen.c18ShellSlice.1)) := rfl
+
+/-- every comparison and every slice of the anchored functions, the dict literal of `_get_normals`, the sort key and the
+    default radius read as the model implements them (`<` strict everywhere, `TOL` as the only tolerance, `!= 12`,
+    `> 2`, `!= 2`, `> 1`, `!= 1`, `< 0.5`, `< 0`, `[-2:]`, `[1:3]`, front/back/top/bottom/left/right with their signs) -/
+theorem T_C18_tie_guards :
+    CBV.Gen.c18Compares =
+      [("finder.FinderBase._find_by_position", "radius is None"),
+       ("finder.FinderBase._find_by_position", "f.norm(vertex.position - position) < radius"),
+       ("functions.is_point_on_plane", "point_to_plane_distance(origin, normal, point) < constants.TOL"),
+       ("functions.point_to_plane_distance", "norm(origin - point) < constants.TOL"),
+       ("viewpoint.Quadrangle.__init__", "len(triangles) > 2"),
+       ("viewpoint.Quadrangle.__init__", "np.dot(triangles[0].normal, triangles[1].normal) < 0.5"),
+       ("viewpoint.Quadrangle.__init__", "len(common_points) != 2"),
+       ("viewpoint.Quadrangle.__init__", "len(unique_points) != 2"),
+       ("viewpoint.Quadrangle.get_common_point", "len(common_2) > 1"),
+       ("viewpoint.Quadrangle.get_common_points", "f.norm(point_1 - point_2) < constants.TOL"),
+       ("viewpoint.Quadrangle.get_unique_points", "f.norm(point - common_point) < constants.TOL"),
+       ("viewpoint.Triangle.orient", "np.dot(self.center - hull_center, self.normal) < 0"),
+       ("viewpoint.ViewpointReorienter._make_triangles", "len(hull.simplices) != 12"),
+       ("viewpoint.ViewpointReorienter.reorient",
+        "sum((1 for point in sorted_points if f.norm(point - original) < constants.TOL)) != 1"),
+       ("viewpoint.ViewpointReorienter.reorient", "f.norm(point - original) < constants.TOL"),
+       ("viewpoint.ViewpointReorienter.reorient", "np.dot(np.cross(side_x, side_y), side_z) < 0")] ∧
+    CBV.Gen.c18Slices =
+      [("shape.RoundSolidFinder.find_shell", "face.points[1:3]"),
+       ("viewpoint.ViewpointReorienter._get_aligned", "sorted(triangles, key=lambda t: np.dot(t.normal, vector))[-2:]")] ∧
+    CBV.Gen.c18AlignedSlice = (-2, true) ∧ CBV.Gen.c18AlignedKey = "np.dot(t.normal, vector)" ∧
+    CBV.Gen.c18DefaultRadius = ["constants.TOL"] ∧
+    CBV.Gen.c18NormalsDict = [("front", "v_observer"), ("back", "-v_observer"), ("top", "v_ceiling"),
+      ("bottom", "-v_ceiling"), ("left", "v_left"), ("right", "-v_left")] ∧
+    CBV.Gen.c18NormalsDict.map (·.1) = (Dirs.all ⟨V3.zero, V3.zero, V3.zero⟩).map (·.1) := by
   decide +kernel
 
 end CBV.C18
